@@ -87,7 +87,7 @@ def search(seed=0, N=300):
         ext = {}
         for sp in specs:
             for pn, pt in sp.inputs.items():
-                if (sp.name, pn) not in wired and rnd.random() < 0.9:
+                if ((sp.name, pn) not in wired and rnd.random() < 0.9) or ((sp.name, pn) in wired and rnd.random() < 0.12):
                     r = rnd.random()
                     v = 5 if r < 0.6 else (TypedValue(pt.data_type, pt.integrity, 5) if r < 0.8 else TypedValue(rnd.choice(dts), rnd.choice(ils), 5))
                     ext.setdefault(sp.name, {})[pn] = v
@@ -108,6 +108,12 @@ def search(seed=0, N=300):
                 pt = sp.inputs[pn]
                 if tv.data_type != pt.data_type or tv.integrity < pt.integrity:
                     return n, f"value {tv.data_type.name}/{tv.integrity.name} delivered to {mname}.{pn} declared {pt.data_type.name}/{pt.integrity.name} (enforce={enforce})"
+        double = sorted((m, p) for m, ps in ext.items() for p in ps if (m, p) in wired)
+        if rep is not None and double:
+            return n, f"input port(s) {double} have two sources (a wire and an external value) but the diagram was executed (order {rep.execution_order})"
+        for w in (diag.wires if rep is not None else []):
+            if w.dst_module in seen_inputs and getattr(seen_inputs[w.dst_module].get(w.dst_port), "value", None) != 1:
+                return n, f"wire {w.src_module}.{w.src_port} -> {w.dst_module}.{w.dst_port} did not deliver the source module's value to the port the handler saw"
         if any(c > 1 for c in runs.values()):
             return n, f"a module ran more than once: {runs}"
         if rep is not None:
@@ -119,13 +125,67 @@ def search(seed=0, N=300):
                     return n, f"module {w.dst_module} ran before its feeder {w.src_module}"
             if any(mode[m] in ("mislabel_type", "mislabel_integrity") and diag.modules[m].outputs and m in ex._handlers for m in runs if runs[m]):
                 return n, f"a handler output contradicting its declared port label was accepted"
+    # exhaustive small diagrams: up to 3 modules with one TEXT in-port and one TEXT out-port each, every wire subset, every declaration order,
+    # every external-input subset: WiringError exactly when the wires contain a cycle or some in-port has other than exactly one source
+    T0 = PortType(DataType.TEXT, IntegrityLabel.UNTRUSTED)
+    for k in (1, 2, 3):
+        names = [f"m{i}" for i in range(k)]
+        allw = [(a, b) for a in names for b in names]
+        for order in itertools.permutations(names):
+            for wmask in range(1 << len(allw)):
+                ws = [allw[i] for i in range(len(allw)) if wmask >> i & 1]
+                if k == 3 and len(ws) > 3:
+                    continue
+                for emask in range(1 << k):
+                    n += 1
+                    diag = WiringDiagram()
+                    for m in order:
+                        diag.add_module(ModuleSpec(name=m, inputs={"i": T0}, outputs={"o": T0}))
+                    for a, b in ws:
+                        diag.connect(a, "o", b, "i")
+                    ex = DiagramExecutor(diag)
+                    seen, order_run = {}, []
+                    for m in names:
+                        ex.register_module(m, (lambda m: (lambda inputs: (seen.__setitem__(m, inputs["i"].value), order_run.append(m), {"o": "from-" + m})[2]))(m))
+                    ext = {m: {"i": "ext-" + m} for i, m in enumerate(names) if emask >> i & 1}
+                    sources = {m: [a for a, b in ws if b == m] + (["ext"] if m in ext else []) for m in names}
+                    # cycle among wires
+                    adj = {m: [b for a, b in ws if a == m] for m in names}
+                    cyc = False
+                    for s0 in names:
+                        stack, vis = list(adj[s0]), set()
+                        while stack:
+                            x = stack.pop()
+                            if x == s0:
+                                cyc = True
+                                break
+                            if x not in vis:
+                                vis.add(x)
+                                stack.extend(adj[x])
+                    must_raise = cyc or any(len(v) != 1 for v in sources.values())
+                    try:
+                        rep = ex.execute(ext)
+                        raised = False
+                    except WiringError:
+                        raised = True
+                    if must_raise and not raised:
+                        return n, (f"diagram declared {list(order)} wires {ws} external {sorted(ext)}: {'cycle' if cyc else 'a port without exactly one source'} "
+                                   f"but it was executed in order {rep.execution_order}")
+                    if not must_raise:
+                        if raised:
+                            return n, f"well-formed diagram declared {list(order)} wires {ws} external {sorted(ext)} was refused"
+                        for m in names:
+                            src = sources[m][0]
+                            want = "ext-" + m if src == "ext" else "from-" + src
+                            if seen.get(m) != want or (src != "ext" and order_run.index(src) > order_run.index(m)):
+                                return n, f"diagram declared {list(order)} wires {ws}: module {m} saw {seen.get(m)!r}, expected {want!r}; run order {order_run}"
     return n, None
 
 
 if __name__ == "__main__":
     seed = int(os.environ.get("VERIF_SEED", "0") or 0)
     n, bad = search(seed, 300 if "--thorough" not in sys.argv else 5000)
-    out = {"status": "ok" if bad is None else "violation", "bound": "all port-type pairs (exhaustive); seeded random diagrams 1..6 modules x 0..3 ports, wires incl. cycles/fan-in, 5 handler modes", "cases": n}
+    out = {"status": "ok" if bad is None else "violation", "bound": "all port-type pairs (exhaustive); seeded random diagrams 1..6 modules x 0..3 ports, wires incl. cycles/fan-in/doubly-sourced ports, 5 handler modes; exhaustive: <=3 one-port modules x every wire subset (<=3 wires for 3 modules) x declaration order x external-input subset", "cases": n}
     if bad:
         out["detail"] = bad
         os.makedirs("replays", exist_ok=True)
